@@ -93,7 +93,7 @@ def snapshot(x):
 
 def views(x):
     out = []
-    for view in (lambda v: v.s, len, lambda v: v.width, str, repr):
+    for view in (lambda v: v.s, len, lambda v: v.width, str, repr, lambda v: sorted(v.shared_atts.items())):
         try:
             out.append(view(x))
         except Exception as ex:  # noqa  (a view that raises is an observation like any other)
@@ -103,7 +103,7 @@ def views(x):
 
 OPS = ["add", "radd", "addstr", "iadd", "imul", "mul", "slice", "index", "splice", "append", "join", "split",
        "splitlines", "ljust", "rjust", "cwna", "nwar", "cwns", "was", "wasl", "linesplit",
-       "deleg", "rewrap", "fromstr", "copy", "fsarray", "setslice", "observe", "observe", "observe"]
+       "deleg", "rewrap", "fromstr", "copy", "fsarray", "setslice", "shared", "observe", "observe", "observe"]
 
 EDITS = ["setitem", "atts_setitem", "atts_update", "atts_pop", "atts_popitem", "atts_clear",
          "atts_setdefault", "atts_delitem", "atts_ior", "run_s", "run_atts", "run_width", "run_color_str"]
@@ -118,6 +118,18 @@ def do_op(rng, op, pool):
     b = rng.choice(pool)
     L = len(a.copy())
     i, j = sorted((rng.randint(-1, L + 1), rng.randint(-1, L + 1)))
+    if op == "shared":
+        # the formatting common to all characters, asked for and then edited by the caller (to
+        # build the arguments of another call): the caller's dict is the caller's
+        d = a.shared_atts
+        try:
+            d["invert"] = True
+            d.pop("bg", None)
+            d.pop("fg", None)
+            d["bold"] = False
+        except Exception:  # noqa  (a read-only mapping is fine too)
+            pass
+        return [a], []
     if op == "add":
         return [a, b], [a + b]
     if op == "iadd":
